@@ -58,6 +58,13 @@ func (c *Case) Procs() {
 	c.setProcs(hostileProcs[c.R.Intn(len(hostileProcs))])
 }
 
+// ProcsN puts the rest of the case under GOMAXPROCS n (directed cases).
+func (c *Case) ProcsN(n int) {
+	if c.procs == 0 {
+		c.setProcs(n)
+	}
+}
+
 func (c *Case) setProcs(n int) {
 	c.procs = n
 	runtime.GOMAXPROCS(n)
@@ -107,6 +114,18 @@ func (c *Case) Fail(class string, detail any, format string, a ...any) {
 	c.class = class
 	c.reason = fmt.Sprintf(format, a...)
 	c.failDetail = detail
+}
+
+// Scratch returns an empty case for one goroutine of a concurrent scenario: judges written for a Case can run on it
+// without sharing state; Adopt transfers its verdict to the real case after the goroutines were joined.
+func Scratch(r *Rng) *Case { return &Case{R: r} }
+
+// Adopt takes over a scratch case's violation (class prefixed) and its call count.
+func (c *Case) Adopt(sc *Case, prefix, context string) {
+	c.calls += sc.calls
+	if sc.verdict == Violated {
+		c.Fail(prefix+sc.class, sc.failDetail, "%s: %s", context, sc.reason)
+	}
 }
 
 // Failed reports whether a violation was already recorded.
